@@ -176,8 +176,19 @@ pub fn resolve_encoding<'encoding>(
                 }
             }
             
-            report.message(
-                diagn::Message::fuse_topmost(msgs));
+            if msgs.len() == 0
+            {
+                // No candidate failed a constraint: the encoding
+                // still depends on something unresolved
+                report.error_span(
+                    "instruction encoding did not converge",
+                    instr_span);
+            }
+            else
+            {
+                report.message(
+                    diagn::Message::fuse_topmost(msgs));
+            }
         }
 
         return Ok(None);
